@@ -7,7 +7,7 @@ use unic_langid_impl::subtags::{Language, Region, Script, Variant};
 
 proofs! {
 
-fn c15_language_exact() {
+[] fn c15_language_exact() {
     let t = sym::tok9();
     sym::note("t", &t);
     let s = t.bytes();
@@ -28,7 +28,7 @@ fn c15_language_exact() {
     }
 }
 
-fn c15_script_exact() {
+[] fn c15_script_exact() {
     let t = sym::tok9();
     sym::note("t", &t);
     let s = t.bytes();
@@ -42,7 +42,7 @@ fn c15_script_exact() {
     }
 }
 
-fn c15_region_exact() {
+[] fn c15_region_exact() {
     let t = sym::tok9();
     sym::note("t", &t);
     let s = t.bytes();
@@ -57,7 +57,7 @@ fn c15_region_exact() {
     }
 }
 
-fn c15_variant_exact() {
+[] fn c15_variant_exact() {
     let t = sym::tok9();
     sym::note("t", &t);
     let s = t.bytes();
